@@ -66,7 +66,7 @@ def vtt_stamp(ms, rng):
     return "%0*d:%02d:%02d.%03d" % (rng.choice([2, 2, 3]) if h < 100 else 3, h, m, s, f)
 
 
-def render_vtt(cues, rng):
+def render_vtt(cues, rng, note_rng=None):
     nl = rng.choice(["\n", "\n", "\r\n"])
     out = ["WEBVTT" + rng.choice(["", " - title"]), ""]
     for i, (a, b, lines) in enumerate(cues):
@@ -78,6 +78,11 @@ def render_vtt(cues, rng):
         out.append(vtt_stamp(a, rng) + rng.choice([" ", "  ", "\t"]) + "-->" + " " + vtt_stamp(b, rng) + sett)
         out.extend(lines)
         out.extend([""] * rng.choice([1, 1, 2]))
+        if note_rng is not None and not lines and note_rng.random() < 0.7:
+            # a cue without text, then a comment block (not a cue): the comment is no caption
+            out += ["NOTE the cue above has no text", ""]
+    if note_rng is not None and note_rng.random() < 0.2:
+        out += ["NOTE end of file", ""]
     doc = nl.join(out)
     if rng.random() < 0.5:
         doc = doc.rstrip("\r\n")
@@ -133,6 +138,7 @@ def explore(chk):
     b = core.Batch()
     jobs = []
     blank_sub = chk.sub("srt_blank_lines")
+    note_sub = chk.sub("vtt_note_after_empty_cue")
     for i in range(N):
         fmt = ["srt", "webvtt", "microdvd"][i % 3]
         n = rng.choice([0, 1, 2, 3, 5, 8, 12]) if rng.random() < 0.3 else rng.randint(1, 6)
@@ -164,7 +170,7 @@ def explore(chk):
                 opts = {"ign": rng.random() < 0.6, "shift": rng.choice([0, 0, 1, 1500, 10 ** 6, -1])}
                 if opts["shift"] < 0 and cues and cues[0][0] == 0:
                     opts["shift"] = 0
-                doc = render_vtt(cues, rng)
+                doc = render_vtt(cues, rng, note_sub)
                 S = [(a * 1000 + opts["shift"] * 1000, b_ * 1000 + opts["shift"] * 1000) for (a, b_, ls) in cues if ls]
                 op = b.add("vtt.read", str(opts["shift"] * 1000), core.enc_bool(opts["ign"]), core.enc(doc))
         jobs.append((fmt, doc, opts, S, op, True))
